@@ -135,6 +135,11 @@ func allSpecs() []Spec {
 		Spec{Kind: "prof_series", Q: `{a="b"}`},
 		Spec{Kind: "prof_analyze", Q: `{a="b"}`},
 		Spec{Kind: "prof_series_labels", Q: `{a="b"}`, Extra: []string{"a", "c"}},
+		// --- the ClickHouse planner called directly with the whole script (exported API; reaches LineFormatPlanner,
+		// which Transpile never instantiates because every line_format stage is cut off to the in-process planner)
+		Spec{Kind: "logql_chplan", Q: `{a="b"} | line_format "x{{.a}}x{{.c}}"`, Limit: 100},
+		Spec{Kind: "logql_chplan", Q: `{a="b"} | json code="code" | line_format "{{.code}}!"`, Limit: 100},
+		Spec{Kind: "logql_chplan", Q: `{a="b"} |= "0" | c="d"`, Limit: 100},
 		// --- shapes that reach the remaining planner types
 		Spec{Kind: "traceql", Q: `{}`, Limit: 10},
 		Spec{Kind: "traceql", Q: `{name="x"}`, Limit: 10},
